@@ -5,7 +5,7 @@ shape of every method (G rules), and rule T on error/mod.rs.  Not decided: recor
 statement over histories (only "append to the same live Vec")."""
 import re
 
-from vlib import mir
+from vlib import resalg, mir
 from . import common
 
 ACC = "darling_core::error::Accumulator"
@@ -55,11 +55,11 @@ def run(ctx):
         errs = ctx.find_aggregates(f, r"^core::result::Result$", "Err")
         ctx.ob("C05.finish_with.shape", f.key, "one Ok and one Err construction", len(oks) == 1 and len(errs) == 1, "%d Ok, %d Err" % (len(oks), len(errs)))
         for blk, i, st in oks:
-            ctx.requires("C05.finish_with.ok-iff-empty", f, blk, "Ok(success)", [r"is_empty\(.*into_inner\(self\)\)=True"])
+            ctx.requires("C05.finish_with.ok-iff-empty", f, blk, "Ok(success)", [r"^len\(.*into_inner\(self\)\)=0$"])
             e = ctx.expr(f, st["r"])
             ctx.ob("C05.finish_with.ok-value", f.key, "Ok(success)", e.endswith("{a2}"), "Ok carries %s (must be the `success` argument)" % e)
         for blk, i, st in errs:
-            ctx.requires("C05.finish_with.err-iff-nonempty", f, blk, "Err(multiple)", [r"is_empty\(.*into_inner\(self\)\)=False"])
+            ctx.requires("C05.finish_with.err-iff-nonempty", f, blk, "Err(multiple)", [("ne", r"^len\(.*into_inner\(self\)\)$", 0)])
             e = ctx.expr(f, st["r"])
             ctx.ob("C05.finish_with.err-value", f.key, "Err(multiple)",
                    bool(re.search(r"Err\{darling_core::error::Error::multiple\(darling_core::error::Accumulator::into_inner\(self\)\)\}", e)),
@@ -72,20 +72,15 @@ def run(ctx):
     # ---------------------------------------------------------------- handle / handle_in / push / extend
     f = ctx.fn(A + "handle")
     if f:
-        somes = ctx.find_aggregates(f, r"^core::option::Option$", "Some")
-        nones = ctx.find_aggregates(f, r"^core::option::Option$", "None")
-        pushes = ctx.find_calls(f, r"^darling_core::error::Accumulator::push$")
-        ctx.ob("C05.handle.shape", f.key, "one Some, one None, one push", (len(somes), len(nones), len(pushes)) == (1, 1, 1), str((len(somes), len(nones), len(pushes))))
-        for blk, i, st in somes:
-            ctx.requires("C05.handle.some-iff-ok", f, blk, "Some(y)", [r"is_ok\(a2\)=True"])
-            e = ctx.expr(f, st["r"])
-            ctx.ob("C05.handle.some-value", f.key, "Some(y)", e == "core::option::Option::Some{(a2 as Ok).0}", "Some carries %s" % e)
-        for blk, t in pushes:
-            ctx.requires("C05.handle.push-iff-err", f, blk, "push(e)", [r"is_ok\(a2\)=False"])
-            e = ctx.expr(f, t["args"][1])
-            ctx.ob("C05.handle.push-value", f.key, "push(e)", e == "(a2 as Err).0", "pushes %s" % e)
-            for nblk, ni, nst in nones:
-                ctx.ob("C05.handle.push-before-none", f.key, "None after push", f.dominates(blk, nblk), "the push call must dominate the None result")
+        # the case table of handle and the condition of its one effect, however it is spelled
+        # (match, map_err(..).ok(), if let ..)
+        cs = sorted((tuple(a for a in c if not a.startswith("did:")), v) for c, v in resalg.cases(ctx, f))
+        want = sorted([(("is_ok(a2)=True",), "core::option::Option::Some{(a2 as Ok).0}"), (("is_ok(a2)=False",), "core::option::Option::None{}")])
+        ctx.ob("C05.handle.shape", f.key, "Ok(v) => Some(v), Err(e) => None", cs == want, "cases %s" % cs)
+        ctx.ob("C05.handle.some-iff-ok", f.key, "Some(y)", (("is_ok(a2)=True",), "core::option::Option::Some{(a2 as Ok).0}") in cs, "cases %s" % cs)
+        effs = resalg.effects(ctx, f, r"^darling_core::error::Accumulator::push$")
+        ok = len(effs) == 1 and "is_ok(a2)=False" in effs[0][0] and effs[0][1] == ["self", "(a2 as Err).0"]
+        ctx.ob("C05.handle.push-iff-err", f.key, "push(e) exactly when given Err(e)", ok, "push effects %s" % effs)
     f = ctx.fn(A + "handle_in")
     if f:
         rets = ctx.ret_values(f)
@@ -123,17 +118,12 @@ def run(ctx):
     if f:
         fin = ctx.find_calls(f, r"^darling_core::error::Accumulator::finish$")
         ctx.ob("C05.checkpoint.finishes-self", f.key, "finish(self)", len(fin) == 1 and ctx.expr(f, fin[0][1]["args"][0]) == "self", "%d finish calls" % len(fin))
-        for blk, i, st in ctx.find_aggregates(f, r"^core::result::Result$", "Ok"):
-            ctx.requires("C05.checkpoint.ok-iff-clean", f, blk, "Ok(fresh)", [r"is_ok\(darling_core::error::Accumulator::finish\(self\)\)=True"])
-            e = ctx.expr(f, st["r"])
-            ctx.ob("C05.checkpoint.fresh", f.key, "Ok(fresh)", e == "core::result::Result::Ok{<darling_core::error::Accumulator as core::default::Default>::default()}", "Ok carries %s" % e)
-        # the failing exit, written with `?` or with an explicit match: every returned value that is
-        # not the Ok(fresh) above is produced from finish(self)'s error, under finish(self) = Err
-        res = [(blk, e) for blk, e in ctx.ret_exprs(f) if not e.startswith("core::result::Result::Ok{")]
-        ctx.ob("C05.checkpoint.err-path", f.key, "failing exit", len(res) == 1, "%d failing exits: %s" % (len(res), [e[:120] for _, e in res]))
-        for blk, e in res:
-            ctx.requires("C05.checkpoint.err-iff-recorded", f, blk, "Err(recorded)", [r"is_ok\(darling_core::error::Accumulator::finish\(self\)\)=False"])
-            ctx.ob("C05.checkpoint.err-value", f.key, "Err(recorded)", "darling_core::error::Accumulator::finish(self)" in e, "returns %s" % e[:200])
+        FIN = "darling_core::error::Accumulator::finish(self)"
+        cs = sorted((tuple(c), v) for c, v in resalg.cases(ctx, f))
+        want = sorted([(("is_ok(%s)=True" % FIN,), "core::result::Result::Ok{<darling_core::error::Accumulator as core::default::Default>::default()}"),
+                       (("is_ok(%s)=False" % FIN,), "core::result::Result::Err{(%s as Err).0}" % FIN)])
+        ctx.ob("C05.checkpoint.ok-iff-clean", f.key, "finish(self) Ok => Ok(fresh armed accumulator)", want[0] in cs or want[1] in cs and any(v.startswith("core::result::Result::Ok{<darling_core::error::Accumulator as core::default::Default>::default()") for c, v in cs), "cases %s" % cs)
+        ctx.ob("C05.checkpoint.err-iff-recorded", f.key, "finish(self) Err(e) => Err(e)", cs == want, "cases %s" % cs)
     # ---------------------------------------------------------------- the drop bomb
     f = ctx.fn("<%s as core::ops::drop::Drop>::drop" % ACC)
     if f:
